@@ -138,6 +138,46 @@ Section KV.
       + destruct cc as [| | | | |d| | |]; try discriminate Hb. eapply IH; eassumption.
       + eapply IH; eassumption.
   Qed.
+
+  (* ORDER: when no member is carried under text keys, the map written has exactly one entry per member of the object,
+     in the order of the object (= the order of the description, see from_obj), under the registered integers *)
+  Definition written (p : nat * val) (kc : cbor * cbor) : Prop :=
+    exists e bb, nth_error m (fst p) = Some e /\ fst kc = cint (key_id e) /\ rec (key_ty e) (snd p) = Ok bb /\ dec bb = Ok (snd kc).
+
+  Lemma kv_loop_ordered l : forall acc b,
+    kv_loop l acc = Ok b -> NoDup (map fst l) ->
+    (forall idx v e, In (idx, v) l -> nth_error m idx = Some e -> key_id e <> -1 /\ key_id e <> -2) ->
+    (forall idx v e, In (idx, v) l -> nth_error m idx = Some e -> Forall (fun kv => py_eqb (cint (key_id e)) (fst kv) = false) acc) ->
+    exists cs, Forall2 written l cs /\ b = ser (CMap (acc ++ cs)).
+  Proof.
+    induction l as [|[idx x] r IH]; intros acc b Hb Hnd Hnp Hfresh; cbn [kv_loop] in Hb.
+    - injection Hb as <-. exists []. split; [constructor|rewrite app_nil_r; reflexivity].
+    - destruct (nth_error m idx) as [e|] eqn:Ee; [|discriminate Hb].
+      destruct (rec (key_ty e) x) as [bb|] eqn:Eb; cbn [bind] in Hb; [|discriminate Hb].
+      destruct (dec bb) as [cc|] eqn:Ed; cbn [bind] in Hb; [|discriminate Hb].
+      destruct (Hnp idx x e (or_introl eq_refl) Ee) as [H1 H2].
+      assert ((key_id e =? -1) || (key_id e =? -2) = false) as Hp by lia. rewrite Hp in Hb.
+      cbn [map] in Hnd. inversion Hnd as [|? ? Hnot Hnd']; subst.
+      rewrite dict_set_fresh in Hb by (apply (Hfresh idx x e); [left; reflexivity|exact Ee]).
+      destruct (IH _ _ Hb Hnd') as (cs & Hcs & ->).
+      + intros idx' v' e' Hin. apply (Hnp idx' v' e'). right. exact Hin.
+      + intros idx' v' e' Hin Hn'. apply Forall_app. split; [apply (Hfresh idx' v' e'); [right; exact Hin|exact Hn']|].
+        constructor; [|constructor]. cbn [fst]. rewrite py_eqb_cint_l, as_pyint_cint.
+        destruct (key_id e' =? key_id e) eqn:E; [|reflexivity]. exfalso. apply Hnot.
+        assert (idx' = idx) by (eapply nth_same_id; [exact Hn'|exact Ee|lia]). subst. change idx with (fst (idx, v')). apply in_map. exact Hin.
+      + exists ((cint (key_id e), cc) :: cs). split.
+        * constructor; [|exact Hcs]. exists e, bb. cbn [fst snd]. auto.
+        * rewrite <- app_assoc. reflexivity.
+  Qed.
+
+  Theorem kv_written_in_order l b :
+    to_cbor_body env rec (TKeyValue m emb) (VKV l) = Ok b -> NoDup (map fst l) ->
+    (forall idx v e, In (idx, v) l -> nth_error m idx = Some e -> key_id e <> -1 /\ key_id e <> -2) ->
+    exists cs, Forall2 written l cs /\ b = ser (CMap cs).
+  Proof.
+    intros Hb Hnd Hnp. rewrite to_cbor_body_kv in Hb. destruct (kv_loop_ordered l [] b Hb Hnd Hnp) as (cs & Hcs & ->); [|exists cs; auto].
+    intros; constructor.
+  Qed.
 End KV.
 
 (* ---- the tagged envelope ---- *)
@@ -230,3 +270,54 @@ Section Bytes.
     exists c, data, cm. auto.
   Qed.
 End Bytes.
+
+(* ---- the description side: from_obj keeps the members in description order ---- *)
+Lemma kv_set_fresh l i x : ~ In i (map fst l) -> kv_set l i x = l ++ [(i, x)].
+Proof.
+  induction l as [|[j y] r IH]; intros Hn; cbn [kv_set app]; [reflexivity|].
+  cbn [map fst In] in Hn. destruct (Nat.eqb i j) eqn:E; [apply Nat.eqb_eq in E; subst; exfalso; apply Hn; left; reflexivity|].
+  rewrite IH; [reflexivity|]. intros H; apply Hn; right; exact H.
+Qed.
+
+Section FromObjKV.
+  Variable rec : ty -> cbor -> res val.
+  Variable m : list (bytes * Z * ty).
+
+  Definition kv_from_obj_loop :=
+    (fix go (d : list (cbor * cbor)) (acc : list (nat * val)) : res val :=
+       match d with
+       | [] => Ok (VKV acc)
+       | (k, x) :: r =>
+           match find_idx (fun e => py_eqb (CText (key_name e)) k) m O with
+           | Some (idx, e) => let* y := rec (key_ty e) x in go r (kv_set acc idx y)
+           | None => Raise ValueError
+           end
+       end).
+
+  Definition parsed (kx : cbor * cbor) (iy : nat * val) : Prop :=
+    exists e, find_idx (fun e => py_eqb (CText (key_name e)) (fst kx)) m O = Some (fst iy, e) /\ rec (key_ty e) (snd kx) = Ok (snd iy).
+
+  Definition idx_of (k : cbor) : option nat :=
+    match find_idx (fun e => py_eqb (CText (key_name e)) k) m O with Some (i, _) => Some i | None => None end.
+
+  Lemma kv_from_obj_ordered d : forall acc l,
+    kv_from_obj_loop d acc = Ok (VKV l) ->
+    NoDup (map (fun kx => idx_of (fst kx)) d) ->
+    (forall kx i, In kx d -> idx_of (fst kx) = Some i -> ~ In i (map fst acc)) ->
+    exists ys, Forall2 parsed d ys /\ l = acc ++ ys.
+  Proof.
+    induction d as [|[k x] r IH]; intros acc l Hl Hnd Hfresh; cbn [kv_from_obj_loop] in Hl.
+    - injection Hl as <-. exists []. split; [constructor|rewrite app_nil_r; reflexivity].
+    - destruct (find_idx (fun e => py_eqb (CText (key_name e)) k) m O) as [[idx e]|] eqn:Ef; [|discriminate Hl].
+      destruct (rec (key_ty e) x) as [y|] eqn:Ey; cbn [bind] in Hl; [|discriminate Hl].
+      assert (Hi : idx_of k = Some idx) by (unfold idx_of; rewrite Ef; reflexivity).
+      rewrite kv_set_fresh in Hl by (apply (Hfresh (k, x) idx); [left; reflexivity|exact Hi]).
+      cbn [map fst] in Hnd. inversion Hnd as [|? ? Hnot Hnd']; subst.
+      destruct (IH _ _ Hl Hnd') as (ys & Hys & ->).
+      + intros kx i Hin Hix Hin'. rewrite map_app in Hin'. apply in_app_or in Hin'. destruct Hin' as [Hin'|Hin'].
+        * apply (Hfresh kx i); [right; exact Hin|exact Hix|exact Hin'].
+        * cbn in Hin'. destruct Hin' as [<-|[]]. apply Hnot. rewrite Hi, <- Hix.
+          apply (in_map (fun kx0 => idx_of (fst kx0)) r kx Hin).
+      + exists ((idx, y) :: ys). split; [constructor; [exists e; cbn [fst snd]; auto|exact Hys]|rewrite <- app_assoc; reflexivity].
+  Qed.
+End FromObjKV.
